@@ -12,12 +12,19 @@
     time of the cycle and either fold (gaps and folds included), in the year of the start and in the
     following year up to the next start;
   * `get_semantics`, `before_first_onset`, `parse_offset_*`.
-  Partial (`ical_rrule_link_partial`): that an RRULE text has these onsets is C13 ∘ C01 and is not
-  re-proved here; hypotheses `H1–H3` state it in terms of `before(x, inc=True)`.
+  The link to the recurrence rule (`ical_rrule_link_partial`): `yearly_rule_occ` — the recurrence set
+  (C01's specification `Spec.RRule.occ`, which C01's exactness theorems tie to the model's `iter`) of
+  `DTSTART:<y0>0101T<time>` + `FREQ=YEARLY;BYMONTH=m;BYDAY=nWD` is one instant per year at the POSIX
+  rule date; `onsets_of_yearly_rule` discharges `H1–H3` for two such rules on any finite prefix
+  containing the following year; `ical_eq_tzstr_partial` composes with C08: the VTIMEZONE and the
+  tzstr zone of the same rules report the same offset at every wall time of a cycle, either fold.
+  Still outside: the `BYMONTHDAY` form of the rule, the text → arguments step (C13), and the
+  southern-hemisphere order.
   Southern-hemisphere order is symmetric (swap the roles of the two components); it is tied by the
   correspondence and oracle, not by a separate theorem.
 -/
 import DateutilVerif.Proofs.ICal
+import DateutilVerif.Proofs.ICalTzStr
 
 namespace C17
 open ICal
@@ -98,8 +105,31 @@ theorem get_semantics (vs : List VTz) :
     · have : vs.length > 1 := by omega
       simp [h0, this]
 
-/-- `_parse_offset`: an empty value and any length other than 4 or 6 after the sign raise ValueError -/
+/-- `_parse_offset` on the empty value raises ValueError (one input; the general length statement is next) -/
 theorem parse_offset_empty : parseOffset [] = .error .ValueError := by decide
+
+/-- `_parse_offset`: after stripping and removing one leading sign, any length other than 4 or 6 raises ValueError —
+    for every text -/
+theorem parse_offset_bad_length (s0 : List Char)
+    (h : ∀ c rest, strip s0 = c :: rest →
+      (let t := if c == '+' || c == '-' then rest else c :: rest; t.length ≠ 4 ∧ t.length ≠ 6)) :
+    parseOffset s0 = .error .ValueError := by
+  unfold parseOffset
+  cases hs : strip s0 with
+  | nil => rfl
+  | cons c rest =>
+    have := h c rest hs
+    simp only []
+    by_cases hp : c == '+'
+    · simp only [hp, Bool.true_or, if_true] at this ⊢
+      simp [this.1, this.2]
+    · by_cases hm : c == '-'
+      · simp only [hp, hm, Bool.false_or, if_true, Bool.or_true] at this ⊢
+        simp [this.1, this.2]
+      · simp only [hp, hm, Bool.or_self, Bool.false_eq_true, if_false] at this ⊢
+        have h1 : rest.length ≠ 3 := by simpa using this.1
+        have h2 : rest.length ≠ 5 := by simpa using this.2
+        simp [h1, h2]
 
 -- sanity / non-vacuity
 example : parseOffset "+0530".toList = .ok 19800 := by decide
@@ -112,5 +142,86 @@ example : lastLE [100, 1100] 500 = some 100 ∧ lastLE [-400, 610, 1610] 500 = s
 example : let comps := [{ tzoffsetfrom := 10, tzoffsetto := 0, isdst := false, onsets := [-400, 610, 1610] : ZComp },
                         { tzoffsetfrom := 0, tzoffsetto := 10, isdst := true, onsets := [100, 1100] : ZComp }]
     utcoffset comps 605 false = 10 ∧ utcoffset comps 605 true = 0 := by decide
+
+/-! ### the link to the recurrence rule -/
+
+open Onsets in
+/-- **the recurrence set of the component's rule.**  `DTSTART:<y0>0101T<hh><mm><ss>`,
+    `RRULE:FREQ=YEARLY;BYMONTH=m;BYDAY=nWD` (POSIX week `w` ↔ `n = w`, `w = 5` ↔ `n = −1`; POSIX day
+    0 = Sunday ↔ SU): the first `N` periods of the RFC 5545 recurrence set (`Spec.RRule.occ`) are one
+    instant per year `y0 … y0+N−1`, on the POSIX rule date `Posix.ruleOrdinal y (.M m w d)` at the
+    DTSTART time; in seconds they are strictly increasing. -/
+theorem yearly_rule_occ (r : YRule) (y0 : Int) (N : Nat) (hv : r.Valid) (hy0 : 1 ≤ y0) (hN : y0 + N ≤ 10000) :
+    Spec.RRule.occ (r.args y0) N =
+      (List.range N).map (fun (k : Nat) =>
+        ({ ord := Posix.ruleOrdinal (y0 + k) (.M r.m r.w r.d), h := r.hh, m := r.mm, s := r.ss } : RRule.Inst)) ∧
+    (Spec.RRule.occ (r.args y0) N).map RRule.Inst.secs = r.onsets y0 N ∧
+    ∀ k, r.onset y0 k < r.onset y0 (k + 1) :=
+  ⟨occ_eq y0 r.hh r.mm r.ss r.m r.w r.d N hy0 hN hv.1 hv.2.1 hv.2.2, r.onsets_occ y0 N hv hy0 hN,
+   onset_step y0 r.hh r.mm r.ss r.m r.w r.d hy0 hv.1 hv.2.1 hv.2.2⟩
+
+open Onsets in
+/-- **`H1–H3` of `ical_eq_range_cycle` discharged.**  DAYLIGHT onsets = the recurrence set of the
+    start rule `rs`, STANDARD onsets = that of the end rule `re` (any prefix of `N` years from `y0`
+    containing year `y0+j+1`); `on`, `off`, `nextOn` are the year-`(y0+j)` transitions
+    (`off` on the standard side).  Northern order in this year and the next. -/
+theorem onsets_of_yearly_rule (rs re : YRule) (y0 : Int) (N j : Nat) (sav : Int) (hvs : rs.Valid)
+    (hve : re.Valid) (hy0 : 1 ≤ y0) (hN : y0 + N ≤ 10000) (hj : j + 1 < N) (hsav : 0 < sav)
+    (hts : 0 ≤ rs.tod) (hte : re.tod < 86400)
+    (hord : rs.onset y0 j + sav < re.onset y0 j)
+    (hord' : rs.onset y0 (j + 1) + sav ≤ re.onset y0 (j + 1)) :
+    let D := (Spec.RRule.occ (rs.args y0) N).map RRule.Inst.secs
+    let S := (Spec.RRule.occ (re.args y0) N).map RRule.Inst.secs
+    let on := Posix.ruleOrdinal (y0 + j) (.M rs.m rs.w rs.d) * 86400 + rs.tod
+    let off := Posix.ruleOrdinal (y0 + j) (.M re.m re.w re.d) * 86400 + re.tod - sav
+    let nextOn := rs.onset y0 (j + 1)
+    on < off ∧ off + sav ≤ nextOn ∧
+    (∀ x, on ≤ x → x < nextOn → lastLE D x = some on) ∧
+    (∀ x, on ≤ x → x < off + sav → ∀ p, lastLE S x = some p → p < on) ∧
+    (∀ x, off + sav ≤ x → x < nextOn + sav → lastLE S x = some (off + sav)) := by
+  intro D S on off nextOn
+  have e1 : D = rs.onsets y0 N := rs.onsets_occ y0 N hvs hy0 hN
+  have e2 : S = re.onsets y0 N := re.onsets_occ y0 N hve hy0 hN
+  rw [e1, e2]
+  exact cycle_hyps rs re y0 N j sav hvs hve hy0 hj hsav hts hte hord hord'
+
+open Onsets in
+/-- **ical_eq_tzstr_partial.**  A VTIMEZONE whose STANDARD / DAYLIGHT components carry the yearly
+    rules `re` / `rs` (onsets = their recurrence sets, `N` years from `y0`) and the tzstr zone `z` of
+    the same rules (`C08.IsZoneOf`, viewed as a `tzrangebase`): at every wall time `w` of the cycle of
+    year `y0+j` — from that year's start of daylight time to the next year's, across New Year — and
+    either fold, both report the same UTC offset (gaps and the repeated hour included). -/
+theorem ical_eq_tzstr_partial (rs re : YRule) (stdOff dstOff y0 : Int) (N j : Nat) (w : Int) (fold : Bool)
+    (z : TzStr.Zone) (hz : C08.IsZoneOf (specOf rs re stdOff dstOff) z)
+    (hvs : rs.Valid) (hve : re.Valid) (hy0 : 2 ≤ y0) (hN : y0 + N ≤ 9999) (hj : j + 1 < N) (hsav : stdOff < dstOff)
+    (hts : 0 ≤ rs.tod) (hts2 : rs.tod < 86400)
+    (hte0 : 0 ≤ re.tod - (dstOff - stdOff)) (hte2 : re.tod < 86400)
+    (hord : rs.onset y0 j + (dstOff - stdOff) < re.onset y0 j)
+    (hord' : rs.onset y0 (j + 1) + (dstOff - stdOff) < re.onset y0 (j + 1))
+    (hw1 : rs.onset y0 j ≤ w) (hw2 : w < rs.onset y0 (j + 1)) :
+    let comps : List ZComp :=
+      [{ tzoffsetfrom := dstOff, tzoffsetto := stdOff, isdst := false,
+         onsets := (Spec.RRule.occ (re.args y0) N).map RRule.Inst.secs },
+       { tzoffsetfrom := stdOff, tzoffsetto := dstOff, isdst := true,
+         onsets := (Spec.RRule.occ (rs.args y0) N).map RRule.Inst.secs }]
+    (TZ.ofTzStr z).utcoffset ⟨w - TZ.epochShift, fold⟩ = .ok (utcoffset comps w fold) := by
+  intro comps
+  have e1 := rs.onsets_occ y0 N hvs (by omega) (by omega)
+  have e2 := re.onsets_occ y0 N hve (by omega) (by omega)
+  have hc : comps = compsOf rs re stdOff dstOff y0 N := by simp only [comps, compsOf, e1, e2]
+  rw [hc, (ical_cycle rs re stdOff dstOff y0 N j w fold hvs hve (by omega) hj hsav hts hte2 hord
+    (Int.le_of_lt hord') hw1 hw2).1]
+  exact tzstr_cycle rs re stdOff dstOff y0 N j w fold z hz hvs hve hy0 (by omega) hsav hts hts2 hte0
+    (by omega) hte2 hord hord' hw1 hw2
+
+/-! non-vacuity: US rules (second Sunday of March 02:00 → first Sunday of November 02:00), 2020… -/
+def usStart : Onsets.YRule := ⟨3, 2, 0, 2, 0, 0⟩
+def usEnd : Onsets.YRule := ⟨11, 1, 0, 2, 0, 0⟩
+example : usStart.Valid ∧ usEnd.Valid := by unfold Onsets.YRule.Valid usStart usEnd; decide
+example : usStart.onset 2020 4 + 3600 < usEnd.onset 2020 4 ∧ usStart.onset 2020 5 + 3600 < usEnd.onset 2020 5 := by
+  decide
+/-- 2024: DST starts on 10 March, the second Sunday -/
+example : usStart.onset 2020 4 = Cal.toOrdinal 2024 3 10 * 86400 + 7200 := by decide
+example : (Spec.RRule.occ (usStart.args 2020) 3).map RRule.Inst.secs = usStart.onsets 2020 3 := by decide
 
 end C17
